@@ -407,10 +407,10 @@ func GenIndex(t *rapid.T, name Ident, tb Table, unique, exprs, partial bool) Ind
 		ix.Exprs = append(ix.Exprs, s)
 		if rapid.IntRange(0, 3).Draw(t, "icoll") == 0 {
 			s += " COLLATE " + rapid.SampledFrom(collations).Draw(t, "icolln")
-		} else if tb.WithoutRowid && rapid.IntRange(0, 3).Draw(t, "icollwr") == 0 {
-			// on WITHOUT ROWID tables the collation of an indexed key column
-			// decides whether SQLite appends the key column again: spell out
-			// the default one, too (it overrides the column's own)
+		} else if rapid.IntRange(0, 5).Draw(t, "icollwr") == 0 || (tb.WithoutRowid && rapid.IntRange(0, 2).Draw(t, "icollwr2") == 0) {
+			// spell out the default collation, too: it overrides the column's
+			// own, and on WITHOUT ROWID tables the collation of an indexed key
+			// column decides whether SQLite appends the key column again
 			s += " COLLATE " + rapid.SampledFrom([]string{"BINARY", "binary"}).Draw(t, "icollwrn")
 		}
 		s += rapid.SampledFrom([]string{"", "", "", " ASC", " DESC", " DESC"}).Draw(t, "idir")
